@@ -668,6 +668,138 @@ def model_kind_case(case, obs):
     return text, [status] + canon
 
 
+# ---- several handles and several sessions alive at once ----------------------------------------
+
+NFILES = 4
+
+
+def gen_multi_case(rng, root_user, forced=None):
+    """Opens / closes (earlier handles first as often as later ones) / directory listings in two SFTP
+    sessions on one transport and a third on its own transport, with attribute requests through
+    handles that have been open for a while: a request through a handle must reach the file that
+    handle was opened on, whatever was opened or closed since."""
+    files = [{"data": gen_data(rng, 60) + bytes([i + 1]) * (i + 1), "mode0": gen_mode(rng, False) | 0o600,
+              "atime0": gen_time(rng), "mtime0": gen_time(rng)} for i in range(NFILES)]
+    steps = []
+    if forced == "reuse":
+        steps = [{"kind": "open", "h": 0, "file": 0, "session": 0}, {"kind": "open", "h": 1, "file": 1, "session": 0},
+                 {"kind": "close", "h": 0}, {"kind": "open", "h": 2, "file": 2, "session": 0},
+                 {"kind": "truncate", "h": 1, "size": 3}, {"kind": "chmod", "h": 1, "mode": 0o640}]
+    elif forced in ("sessions", "transports"):
+        other = 1 if forced == "sessions" else 2
+        steps = [{"kind": "open", "h": 0, "file": 0, "session": 0}, {"kind": "open", "h": 1, "file": 1, "session": other},
+                 {"kind": "utime", "h": 0, "times": (1111, 2222)}, {"kind": "truncate", "h": 0, "size": 2},
+                 {"kind": "chmod", "h": 1, "mode": 0o604}, {"kind": "close", "h": 1},
+                 {"kind": "chmod", "h": 0, "mode": 0o650}]
+    else:
+        live, nh = [], 0
+        for _ in range(rng.randrange(6, 14)):
+            r = rng.random()
+            if not live or (r < 0.35 and len(live) < 5):
+                steps.append({"kind": "open", "h": nh, "file": rng.randrange(NFILES),
+                              "session": rng.choice([0, 0, 0, 1, 1, 2])})
+                live.append(nh)
+                nh += 1
+            elif r < 0.5 and len(live) > 1:
+                h = live.pop(rng.choice([0, 0, rng.randrange(len(live))]))
+                steps.append({"kind": "close", "h": h})
+            elif r < 0.58:
+                steps.append({"kind": "listdir", "session": rng.choice([0, 1, 2])})
+            else:
+                h = rng.choice(live)
+                k = rng.choice(["chmod", "utime", "truncate", "truncate", "chown"])
+                st = {"kind": k, "h": h}
+                if k == "chmod":
+                    st["mode"] = gen_mode(rng, False) | 0o600
+                elif k == "utime":
+                    st["times"] = (gen_time(rng), gen_time(rng))
+                elif k == "truncate":
+                    st["size"] = rng.randrange(0, 90)
+                else:
+                    st["ids"] = (os.getuid(), os.getgid())
+                steps.append(st)
+    return {"multi": True, "files": files, "steps": steps}
+
+
+def multi_snapshot(base):
+    out = []
+    for i in range(NFILES):
+        p = os.path.join(base, "n%d" % i)
+        st = os.stat(p)
+        with open(p, "rb") as fh:
+            data = fh.read()
+        out.append({"mode": st.st_mode & 0o7777, "uid": st.st_uid, "gid": st.st_gid, "atime": int(st.st_atime),
+                    "mtime": int(st.st_mtime), "data": data})
+    return out
+
+
+def execute_multi(ctx, rigs, root, case):
+    """Returns True when every attribute request reached exactly the file its handle was opened on."""
+    base = os.path.join(root, "m")
+    shutil.rmtree(base, ignore_errors=True)
+    os.makedirs(base)
+    for i, f in enumerate(case["files"]):
+        p = os.path.join(base, "n%d" % i)
+        with open(p, "wb") as fh:
+            fh.write(f["data"])
+        os.chmod(p, f["mode0"])
+        os.utime(p, (f["atime0"], f["mtime0"]))
+    want = multi_snapshot(base)
+    handles = {}
+    try:
+        for si, st in enumerate(case["steps"]):
+            k = st["kind"]
+            t0 = time.time()
+            exc = None
+            try:
+                if k == "open":
+                    handles[st["h"]] = (rigs(st["session"]).open("/m/n%d" % st["file"], "r+"), st["file"])
+                elif k == "close":
+                    handles.pop(st["h"])[0].close()
+                elif k == "listdir":
+                    rigs(st["session"]).listdir("/m")
+                else:
+                    fobj, fi = handles[st["h"]]
+                    if k == "chmod":
+                        fobj.chmod(st["mode"])
+                        want[fi]["mode"] = st["mode"] & 0o7777
+                    elif k == "chown":
+                        fobj.chown(*st["ids"])
+                        want[fi]["uid"], want[fi]["gid"] = st["ids"]
+                    elif k == "utime":
+                        fobj.utime(tuple(st["times"]))
+                        want[fi]["atime"], want[fi]["mtime"] = st["times"]
+                    else:
+                        fobj.truncate(st["size"])
+                        d = want[fi]["data"]
+                        want[fi]["data"] = d[:st["size"]] + bytes(max(0, st["size"] - len(d)))
+                        want[fi]["mtime"] = None       # the time of the resize
+            except Exception as e:  # noqa
+                exc = repr(e)
+            got = multi_snapshot(base)
+            t1 = time.time()
+            for i in range(NFILES):
+                if want[i]["mtime"] is None and t0 - 3 <= got[i]["mtime"] <= t1 + 3:
+                    want[i]["mtime"] = got[i]["mtime"]
+            if exc is not None or got != want:
+                bad = [i for i in range(NFILES) if got[i] != want[i]]
+                ctx.fail("multi-handle-%s" % k,
+                         "with several handles / sessions alive, step %d (%s) raised or changed a file other than "
+                         "the one its handle was opened on (a request through a handle must reach that handle's "
+                         "file whatever was opened or closed since)" % (si, k),
+                         case=case,
+                         expected={"n%d" % i: {f: want[i][f] for f in want[i]} for i in bad} or "no exception",
+                         observed={"exception": exc, "files": {"n%d" % i: got[i] for i in bad}})
+                return False
+        return True
+    finally:
+        for fobj, _ in handles.values():
+            try:
+                fobj.close()
+            except Exception:
+                pass
+
+
 def guarded_model(ctx, run_fn, case_type, cases, what, show):
     """Model calls never stop the implementation-level oracle from reporting."""
     try:
@@ -694,7 +826,9 @@ def run(ctx):
                 "path and by handle, at every kind of target - regular file, symlink to a file, directory, missing name, "
                 "name under a missing directory, dangling symlink, file removed since the handle was opened - and "
                 "compared (outcome class incl. the error status, lstat of every entry, bytes) with the os.* call on an "
-                "identical twin tree; a case is non-trivial when distinct and "
+                "identical twin tree; (4) several handles alive at once in two sessions on one transport and a third on its "
+                "own transport: opens, closes of earlier handles, directory listings, and attribute requests through "
+                "long-open handles, every served file compared after each step; a case is non-trivial when distinct and "
                 "at least one observable of the file changes")
     ctx.trusted += ["model coq/Model/C31.v is hand-written; os.chmod/chown/utime/truncate and open('r+') are Gallina "
                     "re-implementations of documented behaviour, tied to the real file system through the real "
@@ -705,7 +839,7 @@ def run(ctx):
     ctx.prove()
     root = tempfile.mkdtemp(prefix="verif-c31-")
     rig = None
-    cases, seqs, kinds = [], [], []
+    cases, seqs, kinds, extra = [], [], [], []
     try:
         rig = Rig(ctx.repo, root)
         for i in range(250 * scale):
@@ -741,6 +875,25 @@ def run(ctx):
             kinds.append((model_kind_case(case, obs), (case, obs)))
             if i < 1:
                 ctx.sample({"kind_case": case, "outcome": obs["outcome"], "served": obs["served"]})
+        # several handles / sessions alive at once (second session on the same transport, third on its own)
+        rig2 = Rig(ctx.repo, root)
+        extra.append(rig2)
+        sessions = {0: rig.sftp, 2: rig2.sftp}
+
+        def rigs(n):
+            if n not in sessions:
+                import paramiko
+                sessions[n] = paramiko.SFTPClient.from_transport(rig.tc)
+                extra.append(sessions[n])
+            return sessions[n]
+
+        for i in range(60 * scale):
+            case = gen_multi_case(rng, root_user, forced={0: "reuse", 1: "sessions", 2: "transports"}.get(i))
+            ctx.count(repr(case["steps"]) + repr([f["data"] for f in case["files"]]), nontrivial=True,
+                      kind="multi-handle")
+            execute_multi(ctx, rigs, root, case)
+            if i == 0:
+                ctx.sample({"multi_handle_steps": case["steps"]})
         # larger files: oracle only
         for i in range(25 * scale):
             case = gen_case(rng, 300_000, root_user)
@@ -753,6 +906,11 @@ def run(ctx):
                       nontrivial=case["size"] is not None and case["size"] != len(case["data"]), kind="big-" + case["op"])
             oracle(ctx, case, obs)
     finally:
+        for x in extra:
+            try:
+                x.close()
+            except Exception:
+                pass
         if rig:
             rig.close()
         shutil.rmtree(root, ignore_errors=True)
@@ -799,6 +957,28 @@ def replay(ctx, rep):
     case = dict(rep["case"])
     if case.get("seq"):
         return _replay_seq(ctx, case)
+    if case.get("multi"):
+        for f in case["files"]:
+            f["data"] = _unhex(f["data"])
+        for st in case["steps"]:
+            for k in ("ids", "times"):
+                if st.get(k) is not None:
+                    st[k] = tuple(st[k])
+        root = tempfile.mkdtemp(prefix="verif-c31-")
+        rig = rig2 = None
+        try:
+            import paramiko
+            rig, rig2 = Rig(ctx.repo, root), Rig(ctx.repo, root)
+            sessions = {0: rig.sftp, 1: paramiko.SFTPClient.from_transport(rig.tc), 2: rig2.sftp}
+            for j in range(2):
+                ctx.count(("replay-multi", j, repr(case["steps"])))
+                execute_multi(ctx, lambda n: sessions[n], root, case)
+        finally:
+            for r in (rig2, rig):
+                if r:
+                    r.close()
+            shutil.rmtree(root, ignore_errors=True)
+        return
     if case.get("kinds"):
         case["data"] = _unhex(case["data"])
         for k in ("ids", "times"):
